@@ -355,3 +355,75 @@ async fn send_http_error(stream: &mut TcpStream, code: u16, message: &str) -> Re
         .await
         .map_err(AnyTlsError::Io)
 }
+
+/// Verification hooks: plain-data wrappers around the private request parsing /
+/// rewriting functions (compiled only with `--cfg anytls_rs_verif`).
+#[cfg(anytls_rs_verif)]
+pub mod http_verif_hooks {
+    /// (method, version, host, port, path, is_connect, header lines, body)
+    pub type Parsed = (
+        String,
+        String,
+        String,
+        u16,
+        String,
+        bool,
+        Vec<String>,
+        Vec<u8>,
+    );
+
+    pub fn find_header_end(buf: &[u8]) -> Option<usize> {
+        super::find_header_end(buf)
+    }
+
+    pub fn parse_http_request(header: &str, body: Vec<u8>) -> Result<Parsed, String> {
+        super::parse_http_request(header, body)
+            .map(|r| {
+                (
+                    r.method,
+                    r.version,
+                    r.host,
+                    r.port,
+                    r.path,
+                    r.is_connect,
+                    r.headers,
+                    r.body,
+                )
+            })
+            .map_err(|e| e.to_string())
+    }
+
+    pub fn determine_target(
+        method: &str,
+        target: &str,
+        headers: &[String],
+    ) -> Result<(String, u16, String, bool), String> {
+        super::determine_target(method, target, headers).map_err(|e| e.to_string())
+    }
+
+    pub fn split_host_port(value: &str, default_port: u16) -> Result<(String, u16), String> {
+        super::split_host_port(value, default_port).map_err(|e| e.to_string())
+    }
+
+    pub fn build_forward_request(p: &Parsed) -> Result<Vec<u8>, String> {
+        let req = super::ParsedRequest {
+            method: p.0.clone(),
+            version: p.1.clone(),
+            host: p.2.clone(),
+            port: p.3,
+            path: p.4.clone(),
+            is_connect: p.5,
+            headers: p.6.clone(),
+            body: p.7.clone(),
+        };
+        super::build_forward_request(&req).map_err(|e| e.to_string())
+    }
+
+    pub async fn read_http_header(
+        stream: &mut tokio::net::TcpStream,
+    ) -> Result<(Vec<u8>, Vec<u8>), String> {
+        super::read_http_header(stream)
+            .await
+            .map_err(|e| e.to_string())
+    }
+}
